@@ -232,9 +232,9 @@ def pathline(ctx):
     ev = list(ev) if isinstance(ev, (list, tuple)) else [ev]
     ctx.ob("C18.pathline", "one event function", len(ev) == 1 and isinstance(ev[0], FuncVal), f"events={ev!r}", loc)
     # terminal flag
-    term = [e for e in I.trace if e.kind == "setattr-func" and e.data[1] == "terminal"]
-    ctx.ob("C18.pathline", "event is terminal", bool(term) and term[-1].data[2] is True and isinstance(ev[0], FuncVal)
-           and term[-1].data[0] == ev[0].qualname, "", loc)
+    # (the attribute of the function object handed to the solver, wherever it was set: inside get_pathline or at module level)
+    flag = ev[0].attrs.get("terminal") if isinstance(ev[0], FuncVal) else None
+    ctx.ob("C18.pathline", "event is terminal", flag is True, f"events[0].terminal = {flag!r}", loc)
     # fun / jac at the solver point
     tt = alg.sym("tau")
     nan = I.np.ext_attr(I.resolve("pydrex.pathlines.np") if False else __import__("pdxsa.values", fromlist=["ExtRef"]).ExtRef("numpy"), "nan", None)
@@ -313,8 +313,15 @@ def pathline(ctx):
     for e in ev:
         if isinstance(e, FuncVal):
             eff = effects_of_function(ctx.program, e.module, e.node)
-            bad = [x for x in eff if x[0] in ("nonlocal", "global", "attr-store-free", "subscript-store-free")]
+            # state of the enclosing call (nonlocal) and state that outlives the call (globals, attributes of module-level objects such as
+            # the event function itself) are separate obligations: the second kind is shared between requests in one process
+            bad = [x for x in eff if x[0] == "nonlocal"]
             ctx.ob("C18.event-pure", f"pathlines.get_pathline.{e.name}", not bad,
                    "event function writes enclosing state: " + ", ".join(f"{k} {n} (line {ln})" for k, n, ln in bad),
+                   f"{ctx.program.relpath(e.module.path)}:{e.node.lineno} ({e.name})")
+            shared = [x for x in eff if x[0] in ("global", "attr-store-free", "subscript-store-free")]
+            ctx.ob("C18.event-pure", f"pathlines.get_pathline.{e.name}:state that outlives the call", not shared,
+                   "event function keeps its running values in state shared by every request in the process: "
+                   + ", ".join(f"{k} {n} (line {ln})" for k, n, ln in shared) + " (interleaved, concurrent or failed requests see each other's strain budget)",
                    f"{ctx.program.relpath(e.module.path)}:{e.node.lineno} ({e.name})")
     ctx.floor("C18.event-pure", 1)
